@@ -403,7 +403,7 @@ def _has_return(s: ast.AST) -> bool:
 def _tail_assign(stmts: list[ast.stmt], ret: str, budget: list[int]) -> list[ast.stmt]:
     """Rewrite a helper body so that every path ends by assigning its result to `ret` instead of
     returning (continuation duplicated into the arms of an `if` that returns); only returns in tail
-    position of if/else chains are supported."""
+    position of if/else chains and of except / else clauses are supported."""
     import copy
 
     budget[0] -= 1
@@ -420,6 +420,18 @@ def _tail_assign(stmts: list[ast.stmt], ret: str, budget: list[int]) -> list[ast
                      body=_tail_assign(list(s.body) + copy.deepcopy(rest), ret, budget),
                      orelse=_tail_assign(list(s.orelse) + copy.deepcopy(rest), ret, budget))
         return [ast.copy_location(new, s)]
+    if isinstance(s, ast.Try) and _has_return(s) and not s.finalbody \
+            and not any(_has_return(x) for x in s.body):
+        # returns in the handlers / else clause: the continuation runs after the else clause (not covered by
+        # the handlers, as before) and after every handler that falls through
+        new_t = ast.Try(
+            body=s.body,
+            handlers=[ast.copy_location(ast.ExceptHandler(
+                type=h.type, name=h.name, body=_tail_assign(list(h.body) + copy.deepcopy(rest), ret, budget)), h)
+                for h in s.handlers],
+            orelse=_tail_assign(list(s.orelse) + copy.deepcopy(rest), ret, budget),
+            finalbody=[])
+        return [ast.copy_location(new_t, s)]
     if _has_return(s) or isinstance(s, (ast.FunctionDef, ast.AsyncFunctionDef, ast.ClassDef, ast.Global, ast.Nonlocal)):
         raise _NoSplice
     return [s] + _tail_assign(rest, ret, budget)
@@ -458,6 +470,45 @@ def _split_tuple_result(stmts: list[ast.stmt], ret: str, n: int) -> bool:
     return True
 
 
+def _own_calls(root: ast.AST) -> list[tuple[ast.Call, ast.AST | None, bool]]:
+    """(call, parent, awaited) for the calls evaluated unconditionally by expression `root`, outermost
+    first (not inside lambdas, comprehensions, conditional expressions or the later operands of and/or)."""
+    out: list[tuple[ast.Call, ast.AST | None, bool]] = []
+
+    def walk(e: ast.AST, parent: ast.AST | None) -> None:
+        if isinstance(e, (ast.Lambda, ast.ListComp, ast.SetComp, ast.DictComp, ast.GeneratorExp)):
+            return
+        if isinstance(e, ast.Call):
+            out.append((e, parent, isinstance(parent, ast.Await)))
+        if isinstance(e, ast.IfExp):
+            walk(e.test, e)
+            return
+        if isinstance(e, ast.BoolOp):
+            walk(e.values[0], e)
+            return
+        for c in ast.iter_child_nodes(e):
+            walk(c, e)
+
+    walk(root, None)
+    return out
+
+
+def _replace_expr(stmt: ast.AST, field: str, old: ast.AST, new: ast.AST) -> None:
+    if getattr(stmt, field) is old:
+        setattr(stmt, field, ast.copy_location(new, old))
+        return
+    for n in ast.walk(getattr(stmt, field)):
+        for f, v in ast.iter_fields(n):
+            if v is old:
+                setattr(n, f, ast.copy_location(new, old))
+                return
+            if isinstance(v, list):
+                for i, item in enumerate(v):
+                    if item is old:
+                        v[i] = ast.copy_location(new, old)
+                        return
+
+
 def splice_tail_helpers(prog: Program, fn: FuncInfo, rounds: int = 2,
                         exclude: "frozenset[str] | set[str]" = frozenset()) -> tuple[FuncInfo, set[str]]:
     """Analysis view of `fn` in which calls `x = [await] self._helper(...)` / `return self._helper(...)`
@@ -479,18 +530,30 @@ def splice_tail_helpers(prog: Program, fn: FuncInfo, rounds: int = 2,
             while i < len(suite):
                 s = suite[i]
                 i += 1
-                if not isinstance(s, (ast.Assign, ast.AnnAssign, ast.Return, ast.Expr)) or getattr(s, "value", None) is None:
+                if isinstance(s, (ast.Assign, ast.AnnAssign, ast.AugAssign, ast.Return, ast.Expr)):
+                    root_field = "value"
+                elif isinstance(s, ast.If):
+                    root_field = "test"
+                else:
                     continue
-                awaited = isinstance(s.value, ast.Await)
-                call = s.value.value if awaited else s.value
-                if not isinstance(call, ast.Call):
+                root_expr = getattr(s, root_field, None)
+                if root_expr is None:
                     continue
-                h = nz._helper_target(prog, fn, call, {})
-                if h is None or h is fn.node or h.name in nz.ANCHOR_NAMES or h.name in exclude \
-                        or nz._simple_helper(h) == "expr" \
-                        or isinstance(h, ast.AsyncFunctionDef) != awaited or not all(
-                            isinstance(d, ast.Name) and d.id in ("staticmethod", "override") for d in h.decorator_list):
+                found = None
+                for call, parent, awaited in _own_calls(root_expr):
+                    h = nz._helper_target(prog, fn, call, {})
+                    if h is None or h is fn.node or h.name in nz.ANCHOR_NAMES or h.name in exclude \
+                            or nz._simple_helper(h) == "expr" \
+                            or isinstance(h, ast.AsyncFunctionDef) != awaited or not all(
+                                isinstance(d, ast.Name) and d.id in ("staticmethod", "override") for d in h.decorator_list):
+                        continue
+                    found = (call, parent, awaited, h)
+                    break
+                if found is None:
                     continue
+                call, parent, awaited, h = found
+                whole = (root_expr.value if awaited and isinstance(root_expr, ast.Await) else root_expr) is call \
+                    and not isinstance(s, (ast.If, ast.AugAssign))
                 binds = nz._bind(h, call)
                 if binds is None or any(isinstance(x, (ast.Yield, ast.YieldFrom)) for x in ast.walk(h)) \
                         or any(nz._has_await(v) for v in binds.values()):
@@ -525,7 +588,11 @@ def splice_tail_helpers(prog: Program, fn: FuncInfo, rounds: int = 2,
                 body = [sub.visit(st) for st in body]
                 new: list[ast.stmt] = [ast.copy_location(x, s) for x in pre] + body
                 tgt = s.targets[0] if isinstance(s, ast.Assign) and len(s.targets) == 1 else None
-                if isinstance(tgt, (ast.Tuple, ast.List)) and _split_tuple_result(new, ret, len(tgt.elts)):
+                if not whole:
+                    # the call is an operand / a test: its value is the result variable
+                    _replace_expr(s, root_field, (parent if awaited else call), ast.Name(id=ret, ctx=ast.Load()))
+                    new.append(s)
+                elif isinstance(tgt, (ast.Tuple, ast.List)) and _split_tuple_result(new, ret, len(tgt.elts)):
                     # `a, b = helper(...)` with tuple returns: element-wise, so that roles stay visible
                     for k, e in enumerate(tgt.elts):
                         new.append(ast.copy_location(ast.Assign(
